@@ -30,7 +30,7 @@ AXIOMS_OK = []
 from harness.core import translated_specs
 # ... and Evaluator.evaluate_serial / evaluate_scalar (which designs reach Job.evaluate, the scalar bridge), the submission
 # filter of evaluate_parallel and SweepAlgorithm.run, = Model/Job.v evaluate_serial / evaluate_scalar / sweep
-TRANSLATED = translated_specs("SignedCostsGen", "JobGen", "EvalPathGen", "SweepGen")
+TRANSLATED = translated_specs("SignedCostsGen", "JobGen", "EvalPathGen", "SweepGen", "IndividualInitGen")
 TRUSTED = [
     "Coq 8.16.1 kernel, vm_compute for model evaluation (no native_compute)",
     "hand-written model Model/Job.v tied to job.py / operators.py / individual.py / algorithm_sweep.py by this correspondence run",
